@@ -20,21 +20,33 @@ const (
 // construction, start-up sweep, ticker) - so whatever provisioning prepares is prepared in every harness.
 // The ticker goroutine it starts is dropped (channels are not encodable); ticks are driven by the harnesses.
 func newChecker(disk bool, fetch config.CRLFetchMode, strict bool, sig config.SignatureValidationMode) *CRLRevocationChecker {
+	worldUp()
+	c, err := provisionChecker(disk, fetch, strict, sig, nil, nil)
+	verifrt.Assume(err == nil)
+	return c
+}
+
+// worldUp: the modelled environment (CRL origins, disk, directory listing, repository constructor)
+func worldUp() {
 	crlrepository.VerifInstallWorld()
 	verifrt.InstallDirListing()
 	crlrepository.VerifInstallRepoConstructor()
+}
+
+// provisionChecker: the real Provision with the given configuration (crl_urls / crl_files included - whatever
+// provisioning does with them happens here, not through internal helpers)
+func provisionChecker(disk bool, fetch config.CRLFetchMode, strict bool, sig config.SignatureValidationMode, urls, files []string) (*CRLRevocationChecker, error) {
 	st := config.Memory
 	if disk {
 		st = config.Disk
 	}
-	cfg := &config.CRLConfig{WorkDir: "/work", StorageTypeParsed: st, CDPConfig: &config.CDPConfig{CRLFetchModeParsed: fetch, CRLCDPStrict: strict}, SignatureValidationModeParsed: sig, UpdateIntervalParsed: 1800e9}
+	cfg := &config.CRLConfig{WorkDir: "/work", StorageTypeParsed: st, CDPConfig: &config.CDPConfig{CRLFetchModeParsed: fetch, CRLCDPStrict: strict}, SignatureValidationModeParsed: sig, UpdateIntervalParsed: 1800e9, CRLUrls: urls, CRLFiles: files}
 	cfg.TrustedSignatureCerts = trustedForNext
 	trustedForNext = nil
 	c := &CRLRevocationChecker{}
 	err := c.Provision(cfg, zap.NewNop())
-	verifrt.Assume(err == nil)
 	verifrt.DropSpawned()
-	return c
+	return c, err
 }
 
 // rebootChecker: the process died and was started again on the same work_dir: every handle, lock, goroutine
